@@ -147,6 +147,10 @@ impl Property for C11 {
             // F9 (ii): B's session with A ends at B first; B re-dials before A booked the end
             ("f9-late-bookkeeping".into(), acts(&["dial 1 0", "deliver 1", "cc 1 0", "dial 1 0", "deliver 1", "cd 0", "cc 1 0", "ca 0 0"])),
             ("simultaneous-dials-both-orders".into(), acts(&["dial 0 0", "dial 1 0", "deliver 0", "deliver 1", "cd 0", "cc 1 0", "cc 0 0", "ca 1 0"])),
+            // the requester's end is over, it dials again while the acceptor's task of the first
+            // session still runs; later the acceptor dials too
+            ("redial-while-accept-task-runs".into(), acts(&["dial 0 0", "deliver 0", "cc 0 0", "dial 0 0", "deliver 0", "ca 1 0", "dial 1 0", "deliver 1", "cc 0 0", "cd 1", "cc 1 0", "ca 0 1"])),
+            ("redial-while-accept-task-runs-b".into(), acts(&["dial 1 0", "deliver 1", "cc 1 0", "dial 1 0", "deliver 1", "ca 0 0", "dial 0 0", "deliver 0", "cc 1 0", "cd 0", "cc 0 0", "ca 1 1"])),
             ("refused-report-follow-up".into(), acts(&["dial 0 0", "deliver 0", "dial 0 1", "dial 0 1", "cc 0 0", "ca 1 0", "deliver 0", "cc 0 0", "ca 1 1"])),
             ("not-syncing-is-not-found".into(), {
                 let mut o = vec![Op::Setup { sync_a: true, sync_b: false }];
